@@ -374,6 +374,7 @@ func (c *Client) schedule() (string, *target, error) {
 func (c *Client) run() {
 	ticker := time.NewTicker(clientTick)
 	for {
+		vhook("k.detect.gate", c, nil, 0, 0)
 		c.detect()
 		select {
 		case <-ticker.C:
